@@ -791,6 +791,73 @@ func rdataHostile(r *Rng, mult int) {
 	}
 }
 
+// lexErrorInjection: an unconditional lexer error (a closing parenthesis that was never opened) at every
+// token boundary of a valid record of every type, in the middle of a zone.  Whatever the type's own parser
+// does with the tokens, the first problem must be reported (Err() != nil) and the record behind it must not
+// be delivered.
+func lexErrorInjection(r *Rng, mult int) {
+	pool := &NamePool{R: r}
+	inject := func(txt string) {
+		toks := strings.Fields(txt)
+		for j := 1; j <= len(toks); j++ {
+			bad := strings.Join(toks[:j], " ") + " ) " + strings.Join(toks[j:], " ")
+			zone := "$TTL 300\nfirst.example. A 192.0.2.1\n" + bad + "\nlast.example. A 192.0.2.2\n"
+			var n, sawLast int
+			var perr error
+			res := Protect(func() string {
+				zp := dns.NewZoneParser(strings.NewReader(zone), "example.", "zone.db")
+				for rr, ok := zp.Next(); ok; rr, ok = zp.Next() {
+					n++
+					if rr.Header().Name == "last.example." {
+						sawLast++
+					}
+					if n > 10 {
+						break
+					}
+				}
+				perr = zp.Err()
+				return "ok"
+			})
+			stat["lexerr_injections"]++
+			if res != "ok" {
+				Viol("C07/lexer-error-injected/panic", "zone parser panics on a stray closing parenthesis: "+res, map[string]string{"zone": zone})
+				continue
+			}
+			if perr == nil {
+				Viol("C07/lexer-error-injected/not-reported", "a closing parenthesis that was never opened (a lexer error) in the middle of a zone is not reported: Err() is nil after "+Itoa(n)+" records", map[string]string{"zone": zone, "after_token": Itoa(j)})
+			} else if sawLast > 0 {
+				Viol("C07/lexer-error-injected/record-after-error", "a record behind the erroneous line was delivered", map[string]string{"zone": zone})
+			}
+		}
+	}
+	for _, t := range AllTypes() {
+		got := 0
+		for k := 0; k < 40 && got < mult; k++ {
+			rr, info := GenRR(r, pool, t, false)
+			if rr == nil || !info.WellFormed {
+				continue
+			}
+			var txt string
+			if Protect(func() string { txt = rr.String(); return "ok" }) != "ok" || len(txt) > 400 || strings.ContainsAny(txt, "()\"\n;") {
+				continue
+			}
+			if _, err := dns.NewRR(txt); err != nil {
+				continue
+			}
+			inject(txt)
+			got++
+		}
+	}
+	for _, txt := range curatedRdata {
+		if strings.ContainsAny(txt, "()\";") {
+			continue
+		}
+		if _, err := dns.NewRR(txt); err == nil {
+			inject(txt)
+		}
+	}
+}
+
 // valid records of types with irregular grammars (scan_rr.go): every optional part present / absent
 var curatedRdata = []string{
 	"example.com. LOC 42 21 43.952 N 71 5 6.344 W -24m 1m 200m 10m",
@@ -921,6 +988,7 @@ func runC07(r *Rng, tier string, n int) {
 	// every registered type, cut at every offset (with and without a final newline) and with each
 	// single token removed or doubled: no panic, errors carry a position (oracle only)
 	rdataHostile(r, mult)
+	lexErrorInjection(r, mult)
 	for _, sz := range sizes {
 		for k, rc := range longRecipes(sz) {
 			c := baseCfg(rc)
